@@ -8,6 +8,7 @@ import (
 	"net/http"
 	"net/http/httptest"
 	"reflect"
+	"regexp"
 	"sort"
 	"strings"
 	"sync"
@@ -127,6 +128,20 @@ func c15Call(w *c15World, op string, v int, idx int) string {
 		return validateReq(w.mux, mkReq("GET", []string{"/items/5?q=1,2", "/items/5?q=x"}[v], ""))
 	case "vreq_body_pattern":
 		return validateReq(w.mux, mkReq("POST", "/items/5", []string{fmt.Sprintf(`{"id":1,"tags":["c%dpab"]}`, idx), `{"id":1,"tags":["zz"]}`}[v]))
+	case "vreq_body_pattern_customregex":
+		// the same schema and pattern string, validated by a caller that configured its own (case-insensitive) engine
+		req := mkReq("POST", "/items/5", []string{fmt.Sprintf(`{"id":1,"tags":["C%dPAB"]}`, idx), `{"id":1,"tags":["zz"]}`}[v])
+		route, pp, err := w.mux.FindRoute(req)
+		if err != nil {
+			return "noroute"
+		}
+		opts := &openapi3filter.Options{RegexCompiler: func(expr string) (openapi3.RegexMatcher, error) {
+			return regexp.Compile("(?i)" + expr)
+		}}
+		if err := openapi3filter.ValidateRequest(context.Background(), &openapi3filter.RequestValidationInput{Request: req, PathParams: pp, Route: route, Options: opts}); err != nil {
+			return "reject"
+		}
+		return "ok"
 	case "vreq_body_unique":
 		return validateReq(w.mux, mkReq("POST", "/items/5", []string{fmt.Sprintf(`{"id":1,"tags":["c%dpa","c%dpa"]}`, idx, idx), fmt.Sprintf(`{"id":2,"tags":["c%dpa","c%dpb"]}`, idx, idx)}[v]))
 	case "vreq_body_defaults":
@@ -220,7 +235,7 @@ func c15Run(c *Case) []any {
 				local := map[string]bool{}
 				for it := 0; it < iters; it++ {
 					v := c15Call(w, op, (g+it)%2, c.Idx*2)
-					local[strings.ReplaceAll(v, fmt.Sprintf("c%dp", c.Idx*2), "cNp")] = true
+					local[strings.ReplaceAll(strings.ReplaceAll(v, fmt.Sprintf("c%dp", c.Idx*2), "cNp"), fmt.Sprintf("C%dP", c.Idx*2), "CNP")] = true
 				}
 				mu.Lock()
 				for k := range local {
